@@ -42,7 +42,8 @@ Init == l = 1 /\ viol = {} /\ stats = [progs |-> 0, accepted |-> 0, rejected |->
 Step ==
   /\ l <= Len(Rec) /\ l' = l + 1
   /\ LET e == Rec[l] IN
-     /\ viol' = IF Cardinality(viol) < 30 THEN viol \cup {[prop |-> "C10", line |-> l, id |-> e.id, what |-> w] : w \in Bad(e)} ELSE viol
+     /\ viol' = viol \cup { v \in {[prop |-> "C10", line |-> l, id |-> e.id, what |-> w] : w \in Bad(e)} :
+                                 Cardinality({ u \in viol : u.what = v.what }) < 6 }
      /\ stats' = [stats EXCEPT !.progs = @ + (IF e.ev = "prog" THEN 1 ELSE 0), !.accepted = @ + (IF e.rc = 0 THEN 1 ELSE 0),
                                !.rejected = @ + (IF e.rc = 1 THEN 1 ELSE 0), !.mutants = @ + (IF e.ev = "mutant" THEN 1 ELSE 0)]
 Spec == Init /\ [][Step]_tvars
